@@ -1,13 +1,154 @@
-"""C09 -- task.Clock runs scheduled calls exactly once in time order: bounded stand-in (contracts/parts/C09_bounded.py)."""
-from contracts._parts import bounded, EXPLORATION_NOTE
+"""C09 -- task.Clock runs scheduled calls exactly once in time order.
 
-CONTRACTS = []
+Deductive (floats as reals): the rescheduling protocol of DelayedCall, which both task.Clock (C09) and the reactor
+(C08) rely on.  reset / delay / cancel / activate_delay are loop free, so their symbolic execution over every state
+(cancelled, called, arbitrary real time / delayed_time / now / argument) is exhaustive: reset(s) makes getTime() == now + s,
+delay(s) makes getTime() grow by s, the stored key `time` never increases and the resetter is told exactly when it
+decreased, delayed_time stays >= 0, cancel() calls the canceller exactly once and a cancelled or called call refuses every
+operation with the matching exception and changes nothing.
+Bounded (contracts/parts/C09_bounded.py): whole histories on the real task.Clock.
+"""
+import z3
+
+from pyvc.api import *
+from pyvc import core
+from contracts._parts import bounded
+from twisted.internet import base, error
+
+M = "twisted.internet.base"
+STATE = dict(t=Real(small=[0.0, 1.0]), d=Real(small=[0.0, 0.5]), now=Real(small=[0.0, 2.0]), s=Real(small=[-1.5, 0.0, 1.0]),
+             cancelled=ForkBool(), called=ForkBool())
+CALLS = {"seconds.__call__": lambda I, o: ctx().ghost["now"]}
+FIELDS = ("time", "delayed_time", "cancelled", "called")
+
+
+def mkdc(c, i):
+    dc = c.make(base.DelayedCall, time=i.t, delayed_time=i.d, cancelled=1 if i.cancelled else 0, called=1 if i.called else 0,
+                func=c.opaque("func"), args=(), kw={}, canceller=c.opaque("canceller"), resetter=c.opaque("resetter"),
+                seconds=c.opaque("seconds"), debug=False)
+    return dc
+
+
+def unchanged(S):
+    return band(*[veq(getattr(S.old.dc, f), getattr(S.new.dc, f)) for f in FIELDS])
+
+
+def events(S, name):
+    return [e for e in S.trace if e.name == name]
+
+
+def refused(S):
+    """a cancelled / called call: the matching exception, no call-out, nothing changed"""
+    return band(len(S.trace) == 0, unchanged(S))
+
+
+class _Op(Contract):
+    prop = "C09"
+    module = M
+    calls = CALLS
+    inputs = STATE
+    differential = False
+
+    def requires(self, i):
+        return i.d >= 0  # invariant of DelayedCall established by every operation below
+
+    def setup(self, i):
+        dc = mkdc(self, i)
+        return dict(self=dc, args=self.op_args(i), objs=dict(dc=dc), ghost=dict(now=i.now))
+
+    raises = {error.AlreadyCancelled: lambda S: S.i.cancelled,
+              error.AlreadyCalled: lambda S: band(bnot(S.i.cancelled), S.i.called)}
+
+    def bounded_inputs(self, tier):
+        return iter(())  # opaque collaborators; the real objects are exercised by the bounded part
+
+
+def _key_protocol(S):
+    """the stored key never increases; the resetter is told exactly once when it decreased, never otherwise"""
+    if S.exc is not None:
+        return refused(S)
+    r = events(S, "resetter.__call__")
+    decreased = S.new.dc.time < S.old.dc.time
+    # told at least when it decreased (what the heap needs); an extra notification for an unchanged key is harmless
+    return band(S.new.dc.time <= S.old.dc.time, S.new.dc.delayed_time >= 0,
+                len(r) <= 1, implies(decreased, len(r) == 1), len(S.trace) == len(r),
+                True if not r else r[0].args[0] is S.new.dc,
+                veq(S.new.dc.cancelled, S.old.dc.cancelled), veq(S.new.dc.called, S.old.dc.called))
+
+
+class Reset(_Op):
+    function = "DelayedCall.reset"
+
+    def op_args(self, i):
+        return [i.s]
+
+    ensures = dict(
+        scheduled_for_now_plus_s=lambda S: None if S.exc else S.new.dc.time + S.new.dc.delayed_time == S.i.now + S.i.s,
+        key_never_increases_resetter_iff_decreased=_key_protocol,
+    )
+    canaries = [("if newTime < self.time:", "if newTime <= self.time:", None),  # harmless: equal key, extra resetter call is not made
+                ("self.delayed_time = newTime - self.time", "self.delayed_time = newTime", "scheduled_for_now_plus_s"),
+                ("self.resetter(self)", "pass", "key_never_increases_resetter_iff_decreased")]
+
+
+class Delay(_Op):
+    function = "DelayedCall.delay"
+    also = ["DelayedCall.activate_delay"]
+
+    def op_args(self, i):
+        return [i.s]
+
+    ensures = dict(
+        scheduled_s_later=lambda S: None if S.exc else S.new.dc.time + S.new.dc.delayed_time == S.i.t + S.i.d + S.i.s,
+        key_never_increases_resetter_iff_decreased=_key_protocol,
+    )
+    canaries = [("if self.delayed_time < 0.0:", "if self.delayed_time < -1.0:", "key_never_increases_resetter_iff_decreased")]
+
+
+class Cancel(_Op):
+    function = "DelayedCall.cancel"
+
+    def op_args(self, i):
+        return []
+
+    def _cancelled(S):
+        if S.exc is not None:
+            return refused(S)
+        c = events(S, "canceller.__call__")
+        return band(len(S.trace) == 1, len(c) == 1, c[0].args[0] is S.new.dc, S.new.dc.cancelled == 1,
+                    veq(S.new.dc.time, S.old.dc.time), veq(S.new.dc.delayed_time, S.old.dc.delayed_time),
+                    "func" not in S.new.dc._fields, "args" not in S.new.dc._fields, "kw" not in S.new.dc._fields)
+
+    ensures = dict(canceller_called_once_and_marked=_cancelled)
+    canaries = [("self.canceller(self)", "pass", "canceller_called_once_and_marked")]
+
+
+class GetTime(_Op):
+    function = "DelayedCall.getTime"
+    raises = ()
+
+    def op_args(self, i):
+        return []
+
+    ensures = dict(time_plus_delay=lambda S: band(S.result == S.i.t + S.i.d, len(S.trace) == 0, unchanged(S)))
+
+
+CONTRACTS = [Reset, Delay, Cancel, GetTime]
 BOUNDED = bounded("C09")
 _SCOPE = ('real task.Clock: every history of up to 5 operations (callLater / cancel / reset / delay / advance, dyadic times, mods aimed at run and cancelled calls too) with up to 3 calls, nested scripts (calls that schedule, cancel, reset, delay from inside a running call) and seeded random histories of up to 40 operations nested 4 deep; oracle: an observer written from the property statement (exactly once, first reaching advance, nondecreasing time, creation order on ties, getDelayedCalls = pending set)')
-NOTES = dict(explanation=_SCOPE, not_covered=["deductive contracts on the anchored functions (not built)"])
+NOTES = dict(explanation="DelayedCall.reset / delay / cancel / getTime proved over every state and real argument; Clock histories bounded: " + _SCOPE,
+             not_covered=["Clock.advance / callLater / _sortCalls as deductive contracts (list.sort with a key and call-outs "
+                          "that mutate the list: bounded tier only)", "floating point rounding (times are reals)"])
 MANIFEST = dict(
-    category="exploration",
-    text="Bounded stand-in only, on the real code: " + _SCOPE + ".",
-    note=EXPLORATION_NOTE,
-    technique="bounded exhaustive evaluation of an executable contract on the real code (stand-in; not proved)",
+    category="proof",
+    text="DelayedCall.reset, delay (with activate_delay), cancel and getTime -- the rescheduling protocol task.Clock and the "
+         "reactor share -- are loop free and are executed symbolically over every state (cancelled / called flags, arbitrary "
+         "real time, delayed_time >= 0, clock reading and argument): reset(s) leaves getTime() == now + s, delay(s) adds s, the "
+         "stored key never increases, the resetter is called (once) whenever the key decreased, delayed_time "
+         "stays >= 0, cancel() calls the canceller exactly once and drops func/args/kw, and a cancelled (called) call "
+         "raises AlreadyCancelled (AlreadyCalled) and changes nothing.  Clock.advance's ordering and exactly-once behaviour "
+         "over whole histories is exercised in the bounded tier only: " + _SCOPE + ".",
+    note="Trusted: pyvc, SMT solvers, floats treated as reals, the canceller / resetter / seconds collaborators as opaque "
+         "call-outs.  Clock.advance: bounded, never counted as proved.",
+    technique="contract-based deductive verification (exhaustive symbolic execution of loop-free methods over reals, SMT) + bounded exhaustive histories",
 )
